@@ -608,7 +608,7 @@ func runC20(r *core.Run) {
 			sw := func(p cashu.Proof) c20Resp {
 				return c.do("POST", "/v1/swap", swapBody(cashu.Proofs{p}, client.Outputs(rng, act.Id, client.Split(8-fee(1)))))
 			}
-			p2pk := lockCfg{Kind: "P2PK", Data: pubHex(lk.Lock), Nonce: client.RandHex(rng, 16)}
+			p2pk := lockCfg{Kind: "P2PK", Data: pubHex(lk.Lock), NSigs: -1, Nonce: client.RandHex(rng, 16)}
 			if p, secret := mk(p2pk); secret != "" {
 				c.expectRefusal("p2pk-witness-missing", 0, sw(p))
 				p.Witness = buildWitness([]byte(secret), []sigSpec{{key: lk.F}}, nil, false)
@@ -619,14 +619,14 @@ func runC20(r *core.Run) {
 				p.Witness = buildWitness([]byte(secret), []sigSpec{{key: lk.F}}, nil, false)
 				c.expectRefusal("p2pk-signature-by-other-key-melt", 0, c.do("POST", "/v1/melt/bolt11", map[string]any{"quote": mqx, "inputs": proofsJSON(cashu.Proofs{p})}))
 			}
-			htlc := lockCfg{Kind: "HTLC", Data: lk.Hash, Nonce: client.RandHex(rng, 16)}
+			htlc := lockCfg{Kind: "HTLC", Data: lk.Hash, NSigs: -1, Nonce: client.RandHex(rng, 16)}
 			if p, secret := mk(htlc); secret != "" {
 				c.expectRefusal("htlc-witness-missing", 0, sw(p))
 				wrong := strings.Repeat("ab", 32)
 				p.Witness = buildWitness([]byte(secret), nil, &wrong, false)
 				c.expectRefusal("htlc-preimage-wrong", 0, sw(p))
 			}
-			sigall := lockCfg{Kind: "P2PK", Data: pubHex(lk.Lock), Sigflag: "SIG_ALL", Nonce: client.RandHex(rng, 16)}
+			sigall := lockCfg{Kind: "P2PK", Data: pubHex(lk.Lock), NSigs: -1, Sigflag: "SIG_ALL", Nonce: client.RandHex(rng, 16)}
 			if p, secret := mk(sigall); secret != "" {
 				p.Witness = buildWitness([]byte(secret), []sigSpec{{key: lk.Lock}}, nil, false)
 				c.expectRefusal("sig-all-outputs-unsigned", 0, sw(p))
